@@ -366,4 +366,18 @@ theorem generated_unfinished (cfg : Cfg) (hJ : 0 < cfg.J) (s : State) (hg : GenC
     simpa using hm
   simp [this]
 
+/-! ### audit r5 #4: LAST at the level of the rules -/
+
+theorem step_last_iff_rules' (cfg : Cfg) (s : State) (a : List Int) (hI : Inv cfg s)
+    (hC : s.amask = maskOf cfg s) (hA : InSpec cfg a) :
+    (step cfg s a).2.stepType = .last ↔
+      (¬ legalAction cfg s a ∨ idleSpec cfg (step cfg s a).1 ∨
+        (legalAction cfg s a ∧ completeSpec cfg (step cfg s a).1)) := by
+  rw [step_last_iff_rules cfg s a hI hC hA, step_fst]
+  by_cases hL : legalAction cfg s a
+  · have hI' := inv_next cfg s a hI hL
+    rw [idleSpec_iff, completeSpec_iff cfg _ hI']
+    simp [hL]
+  · simp [hL]
+
 end JobShop
